@@ -55,7 +55,10 @@ theorem case_inSafe (k : Kind) (h : Inv s) (hth : s.threads[t]? = some th) (hpc 
     simp only [step, hth, hpc] at hs
     cases hs
     exact inv_mut0 h hth hns (fun pr hp => core_primret hp hpc)
-  | poll => simp [step, hth, hpc] at hs
+  | poll =>
+    simp only [step, hth, hpc] at hs
+    cases hs
+    exact inv_mut0 h hth hns (fun pr hp => core_pollret hp hpc)
   | alloc =>
     simp only [step, hth, hpc] at hs
     split at hs
